@@ -578,15 +578,7 @@ func TestVecSlack(t *testing.T) {
 		for _, pos := range vpos {
 			for _, sp := range specials {
 				for _, st := range statesFor(op) {
-					if op.recv == rVec && st != stRowView {
-						// a unit-increment kernel that trusts len(Data) would write
-						// beyond a compact receiver (heap corruption): only the
-						// receiver embedded in a sentinel parent is used here
-						continue
-					}
-					if st == stWrong || (st == stView && op.anyShape) || (st <= stReset && op.basicState == stSized) {
-						// CloneFromVec on a view receiver and RankTwo on an empty
-						// receiver are separate reported findings
+					if st == stWrong {
 						continue
 					}
 					for rep := 0; rep < vk.Pick(3, 12); rep++ {
@@ -620,4 +612,61 @@ func TestVecSlack(t *testing.T) {
 		}
 	}
 	vk.Enumerate(t, "vec-slack", len(cases), func(i int) opCase { return cases[i] }, checkOpSub("vec-slack"))
+}
+
+// ---- user types that the general registry leaves out --------------------------------
+
+// TestUserTypes runs every operation with (a) user RawTriangular/RawTriBander
+// types whose raw value has Diag == blas.Unit (stored diagonal not referenced,
+// At(i,i) == 1; untransposeExtract anticipates them) and (b) a user Matrix
+// implemented on an uncomparable struct value, in every operand position.
+func TestUserTypes(t *testing.T) {
+	var specials []string
+	for _, k := range kinds {
+		if k.unit || k.name == "basicValue" {
+			specials = append(specials, k.name)
+		}
+	}
+	var cases []opCase
+	for _, op := range ops {
+		var free []param
+		for _, p := range op.params {
+			if p.fixed == nil {
+				free = append(free, p)
+			}
+		}
+		for pos, pp := range free {
+			for _, sp := range specials {
+				if !eligible(kindByID[sp], pp) {
+					continue
+				}
+				for _, st := range statesFor(op) {
+					if st != stZero && st != stSized && st != stView {
+						continue
+					}
+					for rep := 0; rep < vk.Pick(4, 12); rep++ {
+						h := hash64(vk.Seed(), "user-types", op.name, pos, sp, st, rep)
+						rng := vk.NewSplitMix(h)
+						c := opCase{Op: op.name, State: st, Seed: h, Mode: rep % 2, A: rng.Intn(len(alphas)), P: rng.Intn(op.nP)}
+						for fi, p := range free {
+							switch {
+							case fi == pos, rep%2 == 0 && eligible(kindByID[sp], p):
+								// the same user type in every position it fits (even reps)
+								c.Kinds = append(c.Kinds, sp)
+							default:
+								el := eligibleKinds(p)
+								c.Kinds = append(c.Kinds, el[rng.Intn(len(el))])
+							}
+						}
+						c.Dims = make([]int, op.nvars)
+						for k := range c.Dims {
+							c.Dims[k] = 1 + rng.Intn(7)
+						}
+						cases = append(cases, c)
+					}
+				}
+			}
+		}
+	}
+	vk.Enumerate(t, "user-types", len(cases), func(i int) opCase { return cases[i] }, checkOpSub("user-types"))
 }
